@@ -28,7 +28,7 @@ package posix
 // (the signature of a streaming upload, the content hashes and the declared length are verified by the
 // readers wrapped around the body, which report a mismatch as a read error at end of stream).
 //@ func (*Posix) PutObject
-//@   let bodyRead = called("io.Copy") && result("io.Copy", 1) == nil
+//@   let bodyRead = po.Body == nil || (called("io.Copy") && result("io.Copy", 1) == nil)
 //@   at-call backend.MkdirAll {C02,C06} [mkdir-after-body] requires bodyRead
 //@   at-call meta.MetadataStorer.StoreAttribute {C02,C06} [attributes-after-body] requires bodyRead
 //@   at-call posix.Posix.createObjVersion {C02,C06} [version-copy-after-body] requires bodyRead
